@@ -3031,7 +3031,8 @@ void QXmppJingleMessageInitiationElement::toXml(QXmlStreamWriter *writer) const
     writer->writeStartElement(jmiElementTypeToString(d->type));
     writer->writeDefaultNamespace(toString65(ns_jingle_message_initiation));
 
-    writeOptionalXmlAttribute(writer, u"id", d->id);
+    // the ID is mandatory: isJingleMessageInitiationElement() does not recognize the element without it
+    writer->writeAttribute(QSL65("id"), d->id);
 
     if (d->description) {
         d->description->toXml(writer);
@@ -3290,7 +3291,13 @@ void QXmppCallInviteElement::toXml(QXmlStreamWriter *writer) const
 
     // write namespace and ID.
     writer->writeDefaultNamespace(toString65(ns_call_invites));
-    writeOptionalXmlAttribute(writer, u"id", d->id);
+    if (d->type == Type::Invite) {
+        // "invite" tags don't have an ID yet.
+        writeOptionalXmlAttribute(writer, u"id", d->id);
+    } else {
+        // mandatory: isCallInviteElement() does not recognize the other elements without it
+        writer->writeAttribute(QSL65("id"), d->id);
+    }
 
     switch (d->type) {
     case Type::Reject:
